@@ -95,6 +95,7 @@ type extGen struct {
 	// Such names are ambiguous for Lookup (which of the equally named nodes it reaches
 	// first depends on the built-in layout): they are never looked up and never serve
 	// as a parent handle in that run - decided when the first carrier is created.
+	predOn            *inputs.Input // the next predicate is modelled on this input
 	pendingTrapParent *model.Ext // the accepting extension a trap hangs on (to be registered first)
 	collideOn  bool
 	ambiguous  map[string]bool
@@ -107,6 +108,42 @@ type extGen struct {
 // entered then. Bounded by what a limit-sized allocation costs per call.
 func bigLimit(r *core.Rand) uint32 {
 	return []uint32{65537, 1<<20 + 1, 1<<20 + 1, 1<<24 + 1, 1<<24 + 1, 1<<24 + 1, 1 << 25, 1<<26 + 7, 1<<27 + 3}[r.Intn(9)]
+}
+
+// corpusParent picks an attachment point from the detection path of one of the
+// run's corpus inputs (the repository's own sample of some format): any built-in
+// node at any depth that a real sample reaches - not only the handful of names in
+// the parents table. The node must be found by Lookup under its own name.
+func (g *extGen) corpusParent() (string, *inputs.Input) {
+	var cs []inputs.Input
+	for _, in := range g.universe {
+		if in.Fam == "corpus" {
+			cs = append(cs, in)
+		}
+	}
+	if len(cs) == 0 {
+		return "", nil
+	}
+	in := cs[g.r.Intn(len(cs))]
+	b := lib.B(in.Bytes(), 0)
+	if b.Nil || len(b.Chain) < 2 {
+		return "", nil
+	}
+	k := g.r.Intn(len(b.Chain) - 1) // not the root
+	name := lib.Bare(b.Chain[k].Str)
+	if lib.IsCharsetName(name) && g.charsetNamesOn || g.ambiguous[name] || g.dupName[name] {
+		return "", nil
+	}
+	lb := lib.LB(name)
+	if lb.Nil || len(lb.Chain) != len(b.Chain)-k {
+		return "", nil
+	}
+	for i := range lb.Chain {
+		if lib.Bare(lb.Chain[i].Str) != lib.Bare(b.Chain[k+i].Str) || lb.Chain[i].Ext != b.Chain[k+i].Ext {
+			return "", nil // another node carries that name first
+		}
+	}
+	return name, &in
 }
 
 // trap makes a detector with a bug: it rejects everything and panics on the
@@ -180,6 +217,10 @@ func (g *extGen) pred(target []string) model.Pred {
 		if target == nil || famIn(in.Fam, target) {
 			cands = append(cands, in)
 		}
+	}
+	if g.predOn != nil {
+		cands = []inputs.Input{*g.predOn}
+		g.predOn = nil
 	}
 	if len(cands) == 0 || g.r.Chance(1, 4) {
 		cands = g.universe
@@ -284,6 +325,12 @@ func (g *extGen) ext() *model.Ext {
 		if !g.dupName[nm] {
 			e.Mime = nm
 			g.dupName[nm] = true
+		}
+	}
+	if !attached && g.r.Chance(1, 3) {
+		if name, in := g.corpusParent(); name != "" {
+			e.Parent, attached = name, true
+			g.predOn = in
 		}
 	}
 	if !attached {
